@@ -457,7 +457,7 @@ func SubscriptBuiltin(vm *Thread, collection, key value.Value) (result, err valu
 	case value.ArrayTuple:
 		return c.Subscript(key)
 	case HashRecord:
-		return c.GetValUndefined(vm, key)
+		return c.GetValNil(vm, key)
 	default:
 		return value.Undefined, value.Undefined
 	}
